@@ -56,6 +56,8 @@ type connState struct {
 	peerCause  bool    // a peer/I-O close cause existed before OnClose ran
 	inCB       bool
 	faulted    bool
+	inOnClose  bool
+	tail       []wEntry // best-effort writes issued inside OnClose
 	udp        bool
 	wakesDue   int // Wake requests accepted and not yet seen as OnTraffic
 	extraTraf  int
